@@ -1,6 +1,7 @@
 import Wayfind.Proofs.RouterBasics
 import Wayfind.Proofs.ParseWf
 import Wayfind.Proofs.Reach
+import Wayfind.Proofs.CloneInv
 
 /-! Router-level reachability: every state produced by API calls has a well-shaped, sorted, flag-sound tree. -/
 
@@ -9,12 +10,15 @@ inductive Call where
   | constraint (name ty : Bytes)
   | insert (t : Bytes) (d : Nat)
   | delete (t : Bytes)
+  /-- `Clone::clone`: the history continues on the copy (the original is a value and stays what it was) -/
+  | clone
 
 /-- the state after a call (a failing call leaves the state as the model's function says) -/
 def Router.step (r : Router) : Call → Router
   | .constraint name ty => match r.constraint name ty with | .ok r' => r' | .error _ => r
   | .insert t d => match r.insert t d with | .ok r' => r' | .error _ => r
   | .delete t => (r.delete t).2
+  | .clone => r.clone
 
 /-- `Router::new()` with the built-in registrations `builtins`, followed by any sequence of calls -/
 def Reachable (r : Router) : Prop :=
@@ -119,6 +123,7 @@ theorem step_good3 (r : Router) (c : Call) (h : Good3 r.root) : Good3 (r.step c)
         · exact h
         · obtain ⟨op, hwf, hroot⟩ := deleteOk_root r t ts hp
           rw [hroot]; exact good3_step _ op h hwf
+  | clone => exact recell_Good3 r.root 0 h
 
 theorem reachable_good3 (r : Router) (h : Reachable r) : Good3 r.root := by
   obtain ⟨b, calls, rfl⟩ := h
